@@ -311,6 +311,38 @@ def ctorEps (atol : Rat) (eps : Option Rat) : Rat :=
   | some e => if e = 0 then atol / 10 else e
   | none => atol / 10
 
+/-! ## the machines side by side: one pool, interleaved calls -/
+
+/-- a call on the shared pool: on the composite system, the loss object, the algorithm object or the global tolerance -/
+inductive POp (A Q W QT : Type)
+  | cache (op : COp)
+  | loss (c : Cfg A Q W)
+  | algo (c : QT × AlgoOpt)
+  | atol (op : AOp)
+
+/-- the pool: one object of each kind -/
+structure Pool (T A Q W QT : Type) where
+  cache : Cache T
+  loss : Loss A Q W
+  algo : Algo QT
+  atol : Rat
+
+/-- one call changes the object it is made on (the implementation's objects share no attributes — `gen_writers_declared`
+lists every method that binds attributes, each on its own object) -/
+def pstep {T A Q W QT : Type} (tbl : Key → T) (s : Pool T A Q W QT) : POp A Q W QT → Pool T A Q W QT
+  | .cache op => { s with cache := (cstep tbl s.cache op).1 }
+  | .loss c => { s with loss := configure s.loss c }
+  | .algo c => { s with algo := setConstraint s.algo c }
+  | .atol op => { s with atol := (astep s.atol op).1 }
+
+def prun {T A Q W QT : Type} (tbl : Key → T) (s : Pool T A Q W QT) (h : List (POp A Q W QT)) : Pool T A Q W QT :=
+  h.foldl (pstep tbl) s
+
+def POp.cache? {A Q W QT : Type} : POp A Q W QT → Option COp | .cache op => some op | _ => none
+def POp.loss? {A Q W QT : Type} : POp A Q W QT → Option (Cfg A Q W) | .loss c => some c | _ => none
+def POp.algo? {A Q W QT : Type} : POp A Q W QT → Option (QT × AlgoOpt) | .algo c => some c | _ => none
+def POp.atol? {A Q W QT : Type} : POp A Q W QT → Option AOp | .atol op => some op | _ => none
+
 /-! ## (e) `MProcess.calc_proj_eq_constraint_with_var` with its aliasing -/
 section projeq
 variable {K : Type} [Add K] [Mul K] [Sub K] [Zero K] [One K]
